@@ -541,7 +541,8 @@ def replay(prop, path):
 
 def setup():
     t0 = time.time()
-    ok, out = R.lake_build(["AdfObdd", "driver"])
+    props = sorted(f[:-5] for f in os.listdir(os.path.join(R.LEAN, "AdfObdd", "Props")) if f.endswith(".lean"))
+    ok, out = R.lake_build(["driver"] + [f"AdfObdd.Props.{p}" for p in props])
     if not ok:
         print(out[-3000:])
         return 1
